@@ -66,6 +66,10 @@ EXCLUSIONS = {
                                  '[finding operand-value-after-implicit-conversion]',
     'early-return-var-retest': 'a variable tested by the condition of an early return is not read again later in the function '
                                '[finding early-return-boundary-assumed (C03)]',
+    'nested-same-var-condition-is-pure': 'below a condition that tests a variable already tested by an enclosing condition, '
+                                         'nothing outside the block is written (declarations, nested ifs and a return only) '
+                                         '[finding early-return-boundary-assumed: cppcheck evaluates the inner condition with '
+                                         'the boundary value the outer condition allows]',
     'alias-self-read': 'the value stored through an alias pointer never reads the aliased variable [finding alias-ternary]',
 }
 
@@ -685,8 +689,15 @@ class Gen:
         return self.mk_un('!', self.truth(a))
 
     # ------------------------------------------------------------ statements
-    def block(self, env, out, indent, nstmts, loopdepth, fn_ret, kind='other'):
+    def block(self, env, out, indent, nstmts, loopdepth, fn_ret, kind='other', cond=None):
         env = env.child()
+        if cond is not None and self.cal:
+            cv = node_vars(cond)
+            # exclusion nested-same-var-condition-is-pure [finding early-return-boundary-assumed]: below a condition
+            # that tests a variable already tested by an enclosing condition nothing outside the block is written
+            if cv & env.cond_vars:
+                env.frozen = True
+            env.cond_vars |= cv
         returned = False
         for _ in range(nstmts):
             if self.stmt(env, out, indent, loopdepth, fn_ret, kind) == 'returned':
@@ -730,6 +741,27 @@ class Gen:
         x = r.random()
         depth_ok = indent < 4
         scal = env.writable_scalars()
+        if env.frozen:
+            # only declarations of fresh variables, nested ifs and (where allowed) a return
+            if x < 0.5 or not depth_ok:
+                e = self.expr(env) if r.random() < 0.6 else self.lit()
+                typ = self.decl_type_for(e)
+                name = self.newvar()
+                self.emit(out, indent, ['%s %s = ' % (typ, name), e, ';'])
+                env.add('roscalar', name, typ)
+                return
+            if x < 0.85:
+                self.feat('if')
+                c = self.cond(env)
+                self.emit(out, indent, ['if (', c, ') {'])
+                self.block(env, out, indent + 1, r.randint(1, 2), loopdepth, fn_ret, 'if', cond=c)
+                self.emit(out, indent, ['}'])
+                return
+            if fn_ret and indent == 2 and kind == 'if':
+                self.feat('early-return')
+                self.emit(out, indent, ['return ', self.ret_expr(env, fn_ret, 1), ';'])
+                return 'returned'
+            return
         if self.bias == 'cond' and scal and depth_ok and r.random() < 0.25:
             x = 0.5     # force an if statement
         if self.bias == 'safe' and depth_ok and r.random() < 0.3:
@@ -779,11 +811,11 @@ class Gen:
             self.feat('if')
             c = self.cond(env)
             self.emit(out, indent, ['if (', c, ') {'])
-            ret1 = self.block(env, out, indent + 1, r.randint(1, 3), loopdepth, fn_ret, 'if')
+            ret1 = self.block(env, out, indent + 1, r.randint(1, 3), loopdepth, fn_ret, 'if', cond=c)
             ret2 = False
             if r.random() < 0.45:
                 self.emit(out, indent, ['} else {'])
-                ret2 = self.block(env, out, indent + 1, r.randint(1, 3), loopdepth, fn_ret, 'if')
+                ret2 = self.block(env, out, indent + 1, r.randint(1, 3), loopdepth, fn_ret, 'if', cond=c)
                 self.feat('else')
             self.emit(out, indent, ['}'])
             if (ret1 or ret2) and self.cal:
@@ -1255,6 +1287,8 @@ class Env:
     def __init__(self, parent):
         self.parent = parent
         self.vars = list(parent.vars) if parent else []   # (kind, name, extra, target)
+        self.cond_vars = set(parent.cond_vars) if parent else set()   # variables tested by enclosing conditions
+        self.frozen = parent.frozen if parent else False               # no writes to outer state in this block
 
     def child(self):
         return Env(self)
